@@ -281,6 +281,16 @@ Definition text_f_shortest (x : bf) : list N :=
     (if n then [45%N] else []) ++ fmt_f d p
   end.
 
+(* Text('f', k) with k = MinPrec - MantExp (at least 0): the exact decimal expansion *)
+Definition text_f_exact (x : bf) : list N :=
+  match x with
+  | BInf n _ => if n then [45;73;110;102]%N else [43;73;110;102]%N
+  | BFin n sig e prec =>
+    let d := dec_init sig e in
+    let p := Z.max (Z.of_nat (length (dm d)) - dexp d) 0 in
+    (if n then [45%N] else []) ++ fmt_f d p
+  end.
+
 Definition text_g10 (x : bf) : list N :=
   match x with
   | BInf n _ => if n then [45;73;110;102]%N else [43;73;110;102]%N
